@@ -520,7 +520,7 @@ def fill_template(tmpl_doc, plaintext, pubkey, session_key_type, rnd):
     return ed
 
 
-def unwrap_and_decrypt(ed, privkey):
+def unwrap_and_decrypt(ed, privkey, ids=None, info=None):
     em = child(ed, XENC, 'EncryptionMethod')
     alg = em.getAttribute('Algorithm') if em is not None else None
     if alg not in BLOCK:
@@ -528,6 +528,18 @@ def unwrap_and_decrypt(ed, privkey):
     kind, klen, bs = BLOCK[alg]
     ki = child(ed, DS, 'KeyInfo')
     ek = child(ki, XENC, 'EncryptedKey') if ki is not None else None
+    if ek is None and ki is not None:
+        rm = child(ki, DS, 'RetrievalMethod')
+        if rm is not None:
+            uri = rm.getAttribute('URI')
+            if uri.startswith('#'):
+                t = (ids or {}).get(uri[1:])
+                if t is not None and t.namespaceURI == XENC and t.localName == 'EncryptedKey':
+                    ek = t
+            elif uri:
+                if info is not None:
+                    info.setdefault('external', []).append(('RetrievalMethod', uri))
+                raise Fail('func=xmlSecKeyDataRetrievalMethodXmlRead:error=cannot fetch %s' % uri)
     if ek is None:
         # xmlsec would look for a matching symmetric key in the keys manager: none is loaded
         raise Fail('func=xmlSecKeysMngrGetKey:error=key is not found')
@@ -677,7 +689,7 @@ def do_decrypt(o, info):
     if '--privkey-pem' not in o:
         raise Fail('func=xmlSecKeysMngrGetKey:error=key is not found')
     key = load_priv_file(o['--privkey-pem'])
-    pt = unwrap_and_decrypt(ed, key)
+    pt = unwrap_and_decrypt(ed, key, ids, info)
     etype = ed.getAttribute('Type')
     if etype.endswith('#Element') or etype.endswith('#Content'):
         parent = ed.parentNode
